@@ -30,6 +30,7 @@ CONSTANTS MaxNodes,   \* total node allocations in one history
           MaxGen,     \* the counter value standing for 2^32-1
           MaxLists,   \* number of list objects (1 = C01/C02/C19, 2 = C10)
           InitDist,   \* set of initial distances MaxGen - currentCounter of list 1
+          JumpDist,   \* distances to MaxGen that the "j" step may jump to
           Ops,        \* enabled operation codes
           NestOps,    \* operation codes that callbacks may perform (user code inside an invocation)
           Defects
@@ -102,6 +103,14 @@ NoFrameOn(l) == \A d \in DOMAIN frames : frames[d].l # l
 \* a handle may be passed to list l unless it is currently a live callback of another list
 Usable(l, h) == h = 0 \/ (h \in 1..nalloc /\ \A m \in Lists : (m # l /\ alive[m]) => ~InSeq(alist[m], h))
 Removed(n) == gen[n] = 0
+
+\* ---- a long stretch of history compressed into one step: additions that were removed again (2^32-ish of them) leave the
+\* list as it is and only advance the generation counter; the harness places the real counter with the guarded hook
+OpJump(l, d) ==
+  /\ En("j") /\ alive[l] /\ MaxGen - d > cur[l]
+  /\ Commit(alive, head, tail, [cur EXCEPT ![l] = MaxGen - d], nxt, prv, gen, nalloc, frames)
+  /\ UNCHANGED <<alist, atodo, bad>>
+  /\ hist' = Append(hist, <<"j", l, d>>)
 
 \* ---- adding
 LinkTail(l, nx, pv, n) == IF head[l] = 0 THEN <<n, n, nx, pv>>
@@ -316,7 +325,7 @@ Next == \/ \E l \in Lists : \/ OpAppend(l) \/ OpPrepend(l) \/ OpEmpty(l) \/ OpIn
                             \/ \E h \in 0..MaxNodes : OpInsert(l, h) \/ OpRemove(l, h) \/ OpOwns(l, h)
                             \/ OpHasAny(l) \/ \E h \in 1..MaxNodes : OpHasListener(l, h) \/ OpRemoveListener(l, h)
                             \/ \E k \in 0..2 : OpForEach(l, k)
-                            \/ OpDestroy(l)
+                            \/ OpDestroy(l) \/ \E d \in JumpDist : OpJump(l, d)
                             \/ \E t \in Lists : OpCopyConstruct(l, t) \/ OpMoveConstruct(l, t) \/ OpCopyAssign(l, t)
                                                  \/ OpMoveAssign(l, t) \/ OpSwap(l, t)
         \/ CbReturn
